@@ -9,21 +9,27 @@ import (
 
 // A tiny path enumerator used by the dispatch/agreement rules: it walks a function's CFG from its
 // entry with some parameters fixed to constants or to a dynamic type, deciding every branch it can
-// (comparisons of those parameters with constants, comma-ok type assertions on them, nil tests of phis
-// whose incoming value on this path is known) and exploring both sides of the others.
+// (comparisons of those parameters with constants, comma-ok type assertions on them, nil tests of
+// values whose abstract value on this path is known) and exploring both sides of the others.  Static
+// calls to module functions are executed the same way (depth <= 3), so helpers that a maintainer
+// extracts do not change what the rules see.
 
 type absVal struct {
-	kind string // "int" | "nil" | "nonnil" | "type"
+	kind string // "int" | "nil" | "nonnil" | "type" | "addr" | "load"
 	k    int64
-	v    ssa.Value  // for nonnil: the defining value (e.g. the FieldAddr selected)
-	t    types.Type // for "type": dynamic type of an interface parameter
+	v    ssa.Value  // nonnil: the defining value; addr/load: the root object (a pointer value)
+	t    types.Type // "type": dynamic type of an interface value; nonnil from a type assertion: that type
+	path []int      // addr/load: field indexes from the root
 }
 
 type symPath struct {
-	env    map[ssa.Value]absVal
-	trace  []ssa.Instruction // instructions of interest, in execution order
-	ret    *ssa.Return
-	blocks []*ssa.BasicBlock
+	env      map[ssa.Value]absVal
+	trace    []ssa.Instruction // instructions of interest, in execution order (all frames)
+	ret      *ssa.Return
+	panicked bool
+	blocks   []*ssa.BasicBlock
+	result   []absVal // abstract values of the returned results (when resolvable)
+	resOK    []bool
 }
 
 func (sp *symPath) resolve(v ssa.Value) (absVal, bool) {
@@ -35,12 +41,29 @@ func (sp *symPath) resolve(v ssa.Value) (absVal, bool) {
 			return absVal{kind: "int", k: k}, true
 		}
 	}
-	a, ok := sp.env[v]
-	if ok {
+	if a, ok := sp.env[v]; ok {
 		return a, true
 	}
 	switch x := v.(type) {
-	case *ssa.FieldAddr, *ssa.Alloc, *ssa.IndexAddr, *ssa.MakeInterface, *ssa.MakeSlice:
+	case *ssa.FieldAddr:
+		base, ok := sp.resolve(x.X)
+		switch {
+		case ok && (base.kind == "addr"):
+			return absVal{kind: "addr", v: base.v, path: append(append([]int{}, base.path...), x.Field)}, true
+		case ok && base.kind == "nonnil" && base.v != nil:
+			return absVal{kind: "addr", v: base.v, path: []int{x.Field}}, true
+		case ok && base.kind == "nil":
+			return absVal{}, false
+		}
+		return absVal{kind: "addr", v: x.X, path: []int{x.Field}}, true
+	case *ssa.UnOp:
+		if x.Op == token.MUL {
+			if a, ok := sp.resolve(x.X); ok && a.kind == "addr" {
+				return absVal{kind: "load", v: a.v, path: a.path}, true
+			}
+		}
+		return absVal{}, false
+	case *ssa.Alloc, *ssa.IndexAddr, *ssa.MakeInterface, *ssa.MakeSlice, *ssa.MakeClosure, *ssa.Function:
 		return absVal{kind: "nonnil", v: v}, true
 	case *ssa.ChangeType:
 		return sp.resolve(x.X)
@@ -59,15 +82,14 @@ func (sp *symPath) decide(cond ssa.Value) (bool, bool) {
 		if !ok1 || !ok2 {
 			return false, false
 		}
+		nn := func(k string) bool { return k == "nonnil" || k == "type" || k == "addr" }
 		var eq bool
 		switch {
 		case a.kind == "int" && b.kind == "int":
 			eq = a.k == b.k
 		case a.kind == "nil" && b.kind == "nil":
 			eq = true
-		case (a.kind == "nil" && b.kind == "nonnil") || (a.kind == "nonnil" && b.kind == "nil"):
-			eq = false
-		case (a.kind == "nil" && b.kind == "type") || (a.kind == "type" && b.kind == "nil"):
+		case (a.kind == "nil" && nn(b.kind)) || (nn(a.kind) && b.kind == "nil"):
 			eq = false
 		default:
 			return false, false
@@ -96,80 +118,162 @@ func (sp *symPath) decide(cond ssa.Value) (bool, bool) {
 	return false, false
 }
 
+func (sp *symPath) fork() *symPath {
+	return &symPath{env: copyEnv(sp.env), trace: append([]ssa.Instruction{}, sp.trace...), blocks: append([]*ssa.BasicBlock{}, sp.blocks...)}
+}
+
+type symCtx struct {
+	interest func(ssa.Instruction) bool
+	out      []*symPath
+	budget   int
+}
+
 // symExec enumerates paths (up to a bound); interest selects the instructions recorded in the trace.
 func symExec(fn *ssa.Function, init map[ssa.Value]absVal, interest func(ssa.Instruction) bool) []*symPath {
-	var out []*symPath
-	var walk func(b, pred *ssa.BasicBlock, sp *symPath, visits map[*ssa.BasicBlock]int)
-	walk = func(b, pred *ssa.BasicBlock, sp *symPath, visits map[*ssa.BasicBlock]int) {
-		if len(out) > 512 || visits[b] > 2 {
+	return symExecDepth(fn, init, interest, 0)
+}
+
+func symExecDepth(fn *ssa.Function, init map[ssa.Value]absVal, interest func(ssa.Instruction) bool, depth int) []*symPath {
+	if len(fn.Blocks) == 0 {
+		return nil
+	}
+	ctx := &symCtx{interest: interest, budget: 512}
+	visits := map[*ssa.BasicBlock]int{}
+	var walk func(b, pred *ssa.BasicBlock, from int, sp *symPath)
+	walk = func(b, pred *ssa.BasicBlock, from int, sp *symPath) {
+		if len(ctx.out) > ctx.budget {
 			return
 		}
-		visits[b]++
-		defer func() { visits[b]-- }()
-		sp.blocks = append(sp.blocks, b)
-		// phis
-		for _, in := range b.Instrs {
-			phi, ok := in.(*ssa.Phi)
-			if !ok {
-				break
+		if from == 0 {
+			if visits[b] > 2 {
+				return
 			}
-			for i, p := range b.Preds {
-				if p == pred {
-					if a, ok := sp.resolve(phi.Edges[i]); ok {
-						sp.env[phi] = a
-					} else {
-						delete(sp.env, phi)
+			visits[b]++
+			defer func() { visits[b]-- }()
+			sp.blocks = append(sp.blocks, b)
+			for _, in := range b.Instrs {
+				phi, ok := in.(*ssa.Phi)
+				if !ok {
+					break
+				}
+				for i, p := range b.Preds {
+					if p == pred {
+						if a, ok := sp.resolve(phi.Edges[i]); ok {
+							sp.env[phi] = a
+						} else {
+							delete(sp.env, phi)
+						}
 					}
 				}
 			}
 		}
-		for _, in := range b.Instrs {
+		for idx := from; idx < len(b.Instrs); idx++ {
+			in := b.Instrs[idx]
 			if interest != nil && interest(in) {
 				sp.trace = append(sp.trace, in)
 			}
 			switch x := in.(type) {
 			case *ssa.Extract:
-				// value of a successful type assertion carries the dynamic type
 				if ta, ok := x.Tuple.(*ssa.TypeAssert); ok && x.Index == 0 {
 					if a, ok := sp.resolve(ta.X); ok && a.kind == "type" {
 						sp.env[x] = absVal{kind: "nonnil", v: x, t: a.t}
 					}
 				}
+				if call, ok := x.Tuple.(*ssa.Call); ok {
+					if a, ok := sp.env[tupleKey{call, x.Index}.value()]; ok {
+						sp.env[x] = a
+					}
+				}
+			case *ssa.Call:
+				callee := x.Call.StaticCallee()
+				if callee != nil && inModule(callee) && len(callee.Blocks) > 0 && depth < 3 && callee != fn {
+					cenv := map[ssa.Value]absVal{}
+					for i, par := range callee.Params {
+						if i < len(x.Call.Args) {
+							if a, ok := sp.resolve(x.Call.Args[i]); ok {
+								cenv[par] = a
+							}
+						}
+					}
+					cpaths := symExecDepth(callee, cenv, interest, depth+1)
+					if len(cpaths) > 0 && len(cpaths) <= 8 {
+						// fork the caller per callee outcome
+						for _, cp := range cpaths {
+							np := sp.fork()
+							np.trace = append(np.trace, cp.trace...)
+							if cp.panicked {
+								np.panicked = true
+								ctx.out = append(ctx.out, np)
+								continue
+							}
+							if len(cp.result) == 1 && cp.resOK[0] {
+								np.env[x] = cp.result[0]
+							} else {
+								for i := range cp.result {
+									if cp.resOK[i] {
+										np.env[tupleKey{x, i}.value()] = cp.result[i]
+									}
+								}
+							}
+							walk(b, pred, idx+1, np)
+						}
+						return
+					}
+				}
 			case *ssa.Return:
-				cp := *sp
+				cp := sp.fork()
 				cp.ret = x
-				cp.env = copyEnv(sp.env)
-				cp.trace = append([]ssa.Instruction{}, sp.trace...)
-				cp.blocks = append([]*ssa.BasicBlock{}, sp.blocks...)
-				out = append(out, &cp)
+				rv := results(x)
+				cp.result = make([]absVal, len(rv))
+				cp.resOK = make([]bool, len(rv))
+				for i, v := range rv {
+					cp.result[i], cp.resOK[i] = sp.resolve(v)
+				}
+				ctx.out = append(ctx.out, cp)
 				return
 			case *ssa.If:
 				if val, ok := sp.decide(x.Cond); ok {
-					idx := 1
+					i := 1
 					if val {
-						idx = 0
+						i = 0
 					}
-					walk(b.Succs[idx], b, sp, visits)
+					walk(b.Succs[i], b, 0, sp)
 					return
 				}
 				for _, s := range b.Succs {
-					cp := &symPath{env: copyEnv(sp.env), trace: append([]ssa.Instruction{}, sp.trace...), blocks: append([]*ssa.BasicBlock{}, sp.blocks...)}
-					walk(s, b, cp, visits)
+					walk(s, b, 0, sp.fork())
 				}
 				return
 			case *ssa.Panic:
+				cp := sp.fork()
+				cp.panicked = true
+				ctx.out = append(ctx.out, cp)
 				return
 			}
 		}
 		for _, s := range b.Succs {
-			walk(s, b, sp, visits)
+			walk(s, b, 0, sp)
 		}
 	}
-	if len(fn.Blocks) == 0 {
-		return nil
+	walk(fn.Blocks[0], nil, 0, &symPath{env: copyEnv(init)})
+	return ctx.out
+}
+
+// tupleKey gives a stable pseudo-value under which component i of a call's result tuple is remembered.
+type tupleKey struct {
+	call *ssa.Call
+	idx  int
+}
+
+var tupleKeys = map[tupleKey]*ssa.Const{}
+
+func (k tupleKey) value() ssa.Value {
+	if v, ok := tupleKeys[k]; ok {
+		return v
 	}
-	walk(fn.Blocks[0], nil, &symPath{env: copyEnv(init)}, map[*ssa.BasicBlock]int{})
-	return out
+	v := &ssa.Const{}
+	tupleKeys[k] = v
+	return v
 }
 
 func copyEnv(e map[ssa.Value]absVal) map[ssa.Value]absVal {
@@ -194,7 +298,6 @@ func loopDepth(b *ssa.BasicBlock) int {
 		if !isHdr || !h.Dominates(b) {
 			continue
 		}
-		// b is in h's loop if b reaches h
 		if blockReach(b, nil)[h] {
 			d++
 		}
@@ -212,7 +315,6 @@ func rpoOrder(fn *ssa.Function) map[*ssa.BasicBlock]int {
 			return
 		}
 		seen[b] = true
-		// visit successors in reverse so that the first successor comes first in RPO
 		for i := len(b.Succs) - 1; i >= 0; i-- {
 			dfs(b.Succs[i])
 		}
